@@ -393,6 +393,11 @@ def _r5(ctx):
 
 
 def run(ctx):
+    C.require_locals(ctx, ctx.func('osaca.inspect'), ['kernel', 'parsed_code', 'args'])
+    C.require_locals(ctx, ctx.func('Frontend._user_warnings_header'), ['arch_text', 'length_text'])
+    C.require_locals(ctx, ctx.func('Frontend._user_warnings_footer'), ['lcd_text'])
+    C.require_locals(ctx, ctx.func('Frontend.full_analysis'), ['arch_warning', 'length_warning', 'lcd_warning', 'ignore_unknown'])
+    C.require_locals(ctx, ctx.func('Frontend.full_analysis_dict'), ['warnings', 'arch_warning', 'length_warning', 'lcd_warning'])
     _r1(ctx)
     _r2(ctx)
     _r3(ctx)
